@@ -80,6 +80,13 @@ func (d device) joinRequestFrameUnder(devNonce uint16, key []byte) []byte {
 	return cat(msg, mic4(key, msg))
 }
 
+// joinRequestFrameMHDR: a join-request whose MHDR octet has RFU bits set (MType 000, Major 00), the MIC
+// computed over the octets as transmitted
+func (d device) joinRequestFrameMHDR(devNonce uint16, mhdr byte) []byte {
+	msg := cat([]byte{mhdr}, rev(d.joinEUI[:]), rev(d.devEUI[:]), le16(devNonce))
+	return cat(msg, mic4(d.nwkKey[:], msg))
+}
+
 func (d device) rejoin02Frame(ty byte, netID [3]byte, rjCount uint16, sNwkSIntKey []byte) []byte {
 	msg := cat([]byte{0xc0, ty}, rev(netID[:]), rev(d.devEUI[:]), le16(rjCount))
 	return cat(msg, mic4(sNwkSIntKey, msg))
@@ -122,7 +129,7 @@ func (d device) accept(reqtype byte, devNonce uint16, frame []byte) (*session, e
 		pt = append(pt, aesEnc(key, ct[i:i+16])...)
 	}
 	body, mic := pt[:len(pt)-4], pt[len(pt)-4:]
-	jn, netid, devaddr, dls, rxd := body[0:3], body[3:6], body[6:10], body[10], body[11]
+	jn, netid, devaddr, dls, rxd := body[0:3], body[3:6], body[6:10], body[10], body[11]&0x0f // RxDelay: bits 3..0
 	s := &session{joinNonce: uint32(jn[0]) | uint32(jn[1])<<8 | uint32(jn[2])<<16, netID: rev(netid), devAddr: rev(devaddr),
 		dlSettings: dls, rxDelay: rxd, optNeg: dls&0x80 != 0}
 	if len(body) == 28 {
